@@ -27,6 +27,7 @@ enum { MAXT = 32, NWATCH = 12, MAXMTX = 64, MAXPOISON = 64 };
 const uint64_t FAR = 9ull * 1000 * 1000;       // deadlines >= now+9s count as "never" (idle vCPU with no sleeper)
 const uint64_t NEVER = ~0ull;
 const uint32_t FAIR_N = 4000;
+const uint32_t TIME_N = 1500;
 
 struct Watch { uintptr_t pc, addr; uint64_t val; uint8_t size, count; uint32_t seen; };
 
@@ -35,7 +36,7 @@ struct Th {
     Watch w[NWATCH]; int nw; bool spinning_forced;
     mv_idle_cell* cell; uint64_t deadline; int join_target; void* obj; bool signaled;
     pthread_t pth; void* (*start)(void*); void* arg; void* ret; volatile bool done; bool yielding;
-    char name[24]; void* stack; uint32_t ops; uint32_t consec; void* switching_from; uint64_t switch_mark_age;
+    char name[24]; void* stack; uint32_t ops; uint32_t consec; uint32_t alone; void* switching_from; uint64_t switch_mark_age;
 };
 
 Th TH[MAXT]; int NT = 0;
@@ -150,7 +151,20 @@ void schedule(Th* me, const char* what, uintptr_t addr, bool exiting = false) {
         }
         Th* next = list[idx];
         for (int i = 0; i < NT; i++) TH[i].spinning_forced = false;
-        if (next == me) { if (n > 1) me->consec++; return; }
+        if (next == me) {
+            if (n > 1) me->consec++;
+            // a thread that keeps running for a long time is probably polling for time to pass (e.g. "while (running_tasks)
+            // thread_yield()" with a task asleep on a timer): let the next known deadline pass (deterministic: count based)
+            if (++me->alone > TIME_N) {
+                me->alone = 0;
+                uint64_t d = NEVER;
+                for (int i = 0; i < NT; i++) { Th* t = &TH[i]; if ((t->wait == W_IDLE || t->wait == W_SLEEP || t->wait == W_COND) && t->deadline > vnow && t->deadline - vnow < FAR && t->deadline < d) d = t->deadline; }
+                for (int i = 0; i < ndeadlines; i++) if (deadlines[i] > vnow && deadlines[i] < d) d = deadlines[i];
+                if (d != NEVER) set_now(d);
+            }
+            return;
+        }
+        me->alone = 0;
         me->consec = 0; next->consec = 0;
         give_baton(next);
         if (exiting) return;
